@@ -329,9 +329,11 @@ class SymVC:
             name = name[4:]
         self.c.oblige(f"{self.name_prefix}.{name}", cond, kind=kind, extra_terms=extra_terms, getvals=list(self.getvals))
 
-    def ensures_forall(self, name, extents, fn):
+    def ensures_forall(self, name, extents, fn, assuming=None):
         """prove fn at generic indices; the range of the indices is an antecedent of THIS goal only (adding
-        it to the path facts would make every later obligation vacuous when an extent can be zero)"""
+        it to the path facts would make every later obligation vacuous when an extent can be zero).
+        `assuming(*idx)`: a case condition on the indices, antecedent of this goal only, visible while the body is
+        evaluated (so that sums are merged under it)"""
         if not isinstance(extents, (tuple, list)):
             extents = (extents,)
         idx = []
@@ -343,6 +345,8 @@ class SymVC:
             self.c.mark_nonneg(v)
             self.getvals.append({"name": str(v), "kind": "int"})
             idx.append(Sym(v))
+        if assuming is not None:
+            rng.append(S.z(assuming(*idx)))
         saved = list(self.c.defs)
         self.c.defs.extend(rng)         # visible while the body is evaluated (index normalisation, merging)
         try:
@@ -805,12 +809,14 @@ class NatVC:
         if not ok:
             self._fail(name, "run-time postcondition false")
 
-    def ensures_forall(self, name, extents, fn):
+    def ensures_forall(self, name, extents, fn, assuming=None):
         if not isinstance(extents, (tuple, list)):
             extents = (extents,)
         import itertools
         self.checked.append(name)
         for idx in itertools.product(*[range(int(n)) for n in extents]):
+            if assuming is not None and not bool(assuming(*idx)):
+                continue
             if not bool(fn(*idx)):
                 self._fail(name, f"run-time postcondition false at index {idx}")
                 return
